@@ -22,6 +22,15 @@ Scala text (variant/Call.scala, variant/Genotype.scala; narrow fail-closed extra
       Call.scala); the triangular index is compared in polynomial normal form (Python // and JVM / agree on the non-negative operands in scope)
   R2 additionally tracks, per path of the decoder, how many low bits of each expression over the signed word agree with the engine's
       unsigned word (engines/exprir.SignDomain): a shift / comparison / index / decoded field that sees a still-signed value is reported
+  R7 / R8 additionally: a test the bit-field / polynomial domain leaves open (`allele > 0xFFFF`) is decided as a SET - the interval(s) of one ranged
+      quantity (an allele symbol over the engine's range for the case, a bit field whose free bits are its low bits) on which it holds; a path that
+      raises, or an `assert` (of the converter or of a helper it calls) that fails, for values of that set which the engine represents is reported
+  R9  purity: no state that outlives a conversion (module global, class attribute, mutable default, attribute of the type) flows into its result, unless
+      it is a memo whose key determines every input of the remembered value; inputs are tracked per BIT of the word (decoder: `word >> 3` does not
+      know the phased bit) and per access path of the call (encoder), through helpers, closures and control dependence (engines/c34deps.py)
+  R10 domain: hail.genetics.Call.__init__ - which every Python call and every decoded word goes through - accepts every call the engine represents:
+      per (ploidy, phased) the constructor is executed over an interval per allele (engine range: haploid 0..2^29-1, diploid indices with triangular
+      representation <= 2^29-1); a raise / failing assert reached with a non-empty box that contains an engine call is reported (engines/c34dom.py)
 Concrete words are used only to print a witness for a difference of terms that is already established; no verdict depends on them.
 When a converter does not have the tabulated statement shape (early returns, inline formulas) the per-field Python instances of R1-R6 are
 not produced and its behaviour is decided by R7 / R8 / R2-sign alone (announced as INFO and in the evidence).
@@ -32,6 +41,8 @@ from __future__ import annotations
 import ast
 from typing import Any, Dict, List, Optional, Tuple
 
+from engines import c34deps as DP
+from engines import c34dom as DOM
 from engines import exprir as X
 from engines import pyfacts as pf
 from engines import scalalite_enc as S
@@ -50,7 +61,8 @@ META = dict(
     technique='static analysis: cross-language extraction of bit layouts and index formulas + exhaustive evaluation of extracted expression trees on a finite domain; '
               'abstract comparison of the two converters with the engine over a bit-field domain (exact bit vectors with symbolic allele bits and sign fill, arithmetic '
               'terms in polynomial normal form, uninterpreted pair-inverse symbol), finite in (ploidy, phased) and covering every allele-field value; per-path sign / '
-              'agreeing-bits abstract domain',
+              'agreeing-bits abstract domain; interval (box) domain for the acceptance set of Call.__init__ and for range tests in the converters; per-bit / per-access-path '
+              'may-dependence analysis for memo keys',
     design_ref='DESIGN.md §3 C34',
 )
 
@@ -128,7 +140,7 @@ class PyWriter:
                 ctx.need(isinstance(st.op, ast.BitOr), f'_tcall._convert_to_encoding: packed word updated with `{pf.nsrc(st)}` (not |=)')
                 ctx.need(self.wrap is None, '_tcall._convert_to_encoding: bits are ORed in after the signed wrap')
                 g = _guards(par, st, fn)
-                src, sh = X.placed(X.from_py(st.value))
+                src, sh = X.placed(X.from_py(pf.expand_locals(fn, st.value)))
                 gtxt = [(pf.nsrc(t), pos) for t, pos in g]
                 v = self.value
                 if not g and src == ('name', f'{v}.ploidy'):
@@ -454,6 +466,106 @@ PY_PAIR_TABLES = {'small_allele_pair': ('PAIR', 32)}
 SC_PAIR_FUNCS = {'Genotype.allelePair': ('PAIR', 32)}
 
 
+# ---- dense integer ranges of the symbolic inputs of one case ---------------------------------------------------------------------------
+# A comparison between ONE ranged quantity and a constant that the bit-field / polynomial domain leaves undecided (`allele > 0xFFFF`) is
+# decided as a SET: the interval(s) of the quantity on which the test holds.  Ranged quantities: an allele symbol A_i (+ constant) whose
+# range is the engine's domain for the case, and a bit vector whose free bits are exactly its low k bits (every value of the interval is
+# attained by some assignment of the free bits).  Constraints on different allele symbols are independent (a box).
+
+Intervals = List[Tuple[int, int]]
+
+
+def _iv_and(a: Intervals, b: Intervals) -> Intervals:
+    out = []
+    for x in a:
+        for y in b:
+            lo, hi = max(x[0], y[0]), min(x[1], y[1])
+            if lo <= hi:
+                out.append((lo, hi))
+    return sorted(out)
+
+
+def _iv_not(a: Intervals, full: Tuple[int, int]) -> Intervals:
+    out, cur = [], full[0]
+    for lo, hi in sorted(a):
+        if lo > cur:
+            out.append((cur, min(lo - 1, full[1])))
+        cur = max(cur, hi + 1)
+    if cur <= full[1]:
+        out.append((cur, full[1]))
+    return [x for x in out if x[0] <= x[1]]
+
+
+def _quantity(tp: X.TermEval, v: Any, sym_ranges: Dict[str, Tuple[int, int]]) -> Optional[Tuple[Any, int, int, Tuple[int, int]]]:
+    """(quantity key, scale, base, dense range of the quantity q) with value == base + scale * q, or None"""
+    if isinstance(v, X.BV):
+        if v.fill != 0:
+            return None
+        free = [i for i, b in enumerate(v.bits) if b not in (0, 1)]
+        if not free or free != list(range(free[0], free[0] + len(free))):
+            return None
+        lits = [v.bits[i] for i in free]
+        if len({(b[1], b[2]) for b in lits}) != len(lits) or len({repr(b[1]) for b in lits}) != 1 or not isinstance(lits[0][1], str):
+            return None      # (bits of an opaque arithmetic term are not known to take every combination)
+        if sorted(b[2] for b in lits) != list(range(len(lits))) and sorted(b[2] for b in lits) != list(range(min(b[2] for b in lits), min(b[2] for b in lits) + len(lits))):
+            return None
+        base = sum(1 << i for i, b in enumerate(v.bits) if b == 1)
+        return ('bv', v.key(), repr(lits[0][1])), 1 << free[0], base, (0, (1 << len(free)) - 1)
+    if isinstance(v, X.Poly):
+        sym, off = None, 0
+        for mono, c in v.terms.items():
+            if mono == ():
+                off = c
+            elif len(mono) == 1 and mono[0][1] == 1 and c == 1 and mono[0][0][0] == 'sym' and sym is None and mono[0][0][1] in sym_ranges:
+                sym = mono[0][0][1]
+            else:
+                return None
+        if sym is None:
+            return None
+        return ('sym', sym), 1, off, sym_ranges[sym]
+    return None
+
+
+def _truthset(tp: X.TermEval, c: tuple, sym_ranges: Dict[str, Tuple[int, int]]) -> Optional[Tuple[Any, Intervals, Tuple[int, int]]]:
+    """(quantity, the intervals of its value on which the test c holds, its whole range) when c is a boolean combination of comparisons of one
+    ranged quantity with constants; None otherwise"""
+    k = c[0]
+    if k == 'paren':
+        return _truthset(tp, c[1], sym_ranges)
+    if k == 'un' and c[1] == '!':
+        r = _truthset(tp, c[2], sym_ranges)
+        return None if r is None else (r[0], _iv_not(r[1], r[2]), r[2])
+    if k == 'bin' and c[1] in ('&&', '||'):
+        a, b = _truthset(tp, c[2], sym_ranges), _truthset(tp, c[3], sym_ranges)
+        if a is None or b is None or a[0] != b[0]:
+            return None
+        if c[1] == '&&':
+            return a[0], _iv_and(a[1], b[1]), a[2]
+        return a[0], _iv_not(_iv_and(_iv_not(a[1], a[2]), _iv_not(b[1], a[2])), a[2]), a[2]
+    if k == 'bin' and c[1] in ('<', '<=', '>', '>=', '==', '!='):
+        try:
+            l, r = tp.ev(c[2]), tp.ev(c[3])
+        except (X.Undecided, X.PathRaises, AnalysisError):
+            return None
+        op = c[1]
+        if isinstance(l, int) and not isinstance(l, bool):
+            l, r, op = r, l, {'<': '>', '>': '<', '<=': '>=', '>=': '<=', '==': '==', '!=': '!='}[op]
+        if not (isinstance(r, int) and not isinstance(r, bool)):
+            return None
+        q = _quantity(tp, l, sym_ranges)
+        if q is None:
+            return None
+        key, scale, base, full = q
+        # base + scale * q  op  r      (scale > 0):   q op' t
+        d = r - base
+        fl, ce = d // scale, -((-d) // scale)
+        lo, hi = full
+        ivs = {'<': [(lo, ce - 1)], '<=': [(lo, fl)], '>': [(fl + 1, hi)], '>=': [(ce, hi)],
+               '==': [(fl, fl)] if d % scale == 0 else [], '!=': [(lo, fl - 1), (fl + 1, hi)] if d % scale == 0 else [(lo, hi)]}[op]
+        return key, _iv_and(ivs, [full]), full
+    return None
+
+
 class Abstract:
     def __init__(self, ctx: Ctx, m: pf.Module, sc: ScalaCall):
         self.ctx, self.m, self.sc = ctx, m, sc
@@ -490,7 +602,7 @@ class Abstract:
 
     def paths(self, which: str) -> Tuple[List[X.TermPath], X.PathTerms]:
         fn = self.dec if which == 'dec' else self.enc
-        pt = X.PathTerms(f'{F}::_tcall.{fn.name}', W.param_names(fn)[1], resolver=self.resolver(fn))
+        pt = X.PathTerms(f'{F}::_tcall.{fn.name}', W.param_names(fn)[1], resolver=self.resolver(fn), helper_asserts=True)
         return pt.run(fn, {}), pt
 
     # ---- the word --------------------------------------------------------------------------
@@ -518,7 +630,11 @@ class Abstract:
             return [(dict(assume), run(assume))]
         except X.Undecided as u:
             if u.lit is None or depth >= 4:
-                raise AnalysisError(f'{F}::_tcall: the abstract evaluation cannot decide {u.what}')
+                # single bits do not decide the test: decide it as a set of values of one ranged quantity (see _truthset)
+                try:
+                    return [(dict(assume), run(assume, True))]
+                except X.Undecided as u2:
+                    raise AnalysisError(f'{F}::_tcall: the abstract evaluation cannot decide {u2.what}')
             key = (u.lit[1], u.lit[2])
             out = []
             for v in (0, 1):
@@ -527,8 +643,73 @@ class Abstract:
                 out += self.split(run, a2, depth + 1)
             return out
 
+    # ---- feasible paths of a converter in one case ---------------------------------------------------------
+    def feasible(self, tp: X.TermEval, paths: List[X.TermPath], sym_ranges: Dict[str, Tuple[int, int]], by_range: bool) -> List[Tuple[X.TermPath, Dict[Any, Tuple[Intervals, Tuple[int, int]]]]]:
+        """paths whose conditions hold in this case: [(path, restriction)] - restriction: ranged quantity -> the intervals of its value for which the
+        path is taken (empty dict: for every value).  by_range=False: every condition must be decided by the term domain (Undecided propagates and
+        the caller splits on the bit); by_range=True: a condition the term domain leaves open is decided as a value set of one ranged quantity."""
+        out = []
+        for p in paths:
+            restr: Dict[Any, Tuple[Intervals, Tuple[int, int]]] = {}
+            ok = True
+            for c, pol, _ in p.conds:
+                try:
+                    if tp.truth(tp.ev(c), c) != pol:
+                        ok = False
+                        break
+                except X.Undecided:
+                    if not by_range:
+                        raise
+                    ts = _truthset(tp, c, sym_ranges)
+                    if ts is None:
+                        raise
+                    key, ivs, full = ts
+                    if not pol:
+                        ivs = _iv_not(ivs, full)
+                    if key[0] == 'bv' and any(k2[0] == 'bv' and k2 != key and k2[2] == key[2] for k2 in restr):
+                        raise      # two different functions of the same bits: not independent
+                    cur = restr.get(key, ([full], full))[0]
+                    ivs = _iv_and(cur, ivs)
+                    if not ivs:
+                        ok = False
+                        break
+                    if ivs != [full]:
+                        restr[key] = (ivs, full)
+            if ok:
+                out.append((p, restr))
+        return out
+
+    def failing_assert(self, tp: X.TermEval, p: X.TermPath, restr: Dict[Any, Tuple[Intervals, Tuple[int, int]]], sym_ranges: Dict[str, Tuple[int, int]]) -> Optional[Tuple[tuple, Dict[Any, Tuple[Intervals, Tuple[int, int]]]]]:
+        """an `assert` of the path (or of a helper it calls) that fails for values in scope: (assertion term, restriction under which it fails)"""
+        for a in p.asserts:
+            try:
+                if not tp.truth(tp.ev(a), a):
+                    return a, restr
+                continue
+            except X.PathRaises:
+                continue
+            except (X.Undecided, AnalysisError):
+                pass
+            try:
+                ts = _truthset(tp, a, sym_ranges)
+            except (X.Undecided, AnalysisError):
+                ts = None
+            if ts is None:
+                continue      # not decided: neither reported nor relied upon
+            key, ivs, full = ts
+            bad = _iv_and(restr.get(key, ([full], full))[0], _iv_not(ivs, full))
+            if bad and not (key[0] == 'bv' and any(k2[0] == 'bv' and k2 != key and k2[2] == key[2] for k2 in restr)):
+                r2 = dict(restr)
+                r2[key] = (bad, full)
+                return a, r2
+        return None
+
+    @staticmethod
+    def restr_text(restr: Dict[Any, Tuple[Intervals, Tuple[int, int]]], show=lambda k: k[1] if k[0] == 'sym' else f'the tested bits of {k[2].strip(chr(39))}') -> str:
+        return '; '.join(f'{show(k)} in ' + ' or '.join(f'[{lo}, {hi}]' for lo, hi in ivs) for k, (ivs, _) in restr.items())
+
     # ---- decode ------------------------------------------------------------------------------------
-    def decode_case(self, ploidy: int, phased: bool, assume: Dict[tuple, int]) -> dict:
+    def decode_case(self, ploidy: int, phased: bool, assume: Dict[tuple, int], by_range: bool = False) -> dict:
         wd = self.layout['repr'][1]
         R = X.BV.sym('R', wd, assume)
         U = self.word(ploidy, phased, R)
@@ -553,37 +734,40 @@ class Abstract:
         # python: the path taken and its result term
         paths, pt = self._paths.get('dec') or self._paths.setdefault('dec', self.paths('dec'))
         tp = X.TermEval('py', {'$w': w}, uninterp=PY_PAIR_FUNCS, tables=PY_PAIR_TABLES, assume=assume, ctor=CALL_CTORS)
-        taken = []
-        for p in paths:
-            ok = True
-            for c, pol, _ in p.conds:
-                if tp.truth(tp.ev(c), c) != pol:
-                    ok = False
-                    break
-            if ok:
-                taken.append(p)
-        if len(taken) != 1:
+        taken = self.feasible(tp, paths, {}, by_range)
+        if not taken or (len(taken) != 1 and not all(r for _, r in taken)):
             raise AnalysisError(f'{F}::_tcall._convert_from_encoding: {len(taken)} paths are feasible for ploidy {ploidy}, phased {phased}')
-        p = taken[0]
-        py_val: Any = None
-        if p.end[0] == 'return' and p.end[1] is not None:
-            try:
-                py_val = tp.ev(p.end[1])
-                py = ('Call', tp.key(py_val.alleles), tp.key(py_val.phased)) if isinstance(py_val, X.CallValue) else ('value', tp.key(py_val))
-            except X.PathRaises as ex:
-                py = ('raise', str(ex))
-        elif p.end[0] == 'raise':
-            py = ('raise', p.end[1])
-        else:
-            py = ('value', ('none',))
-        same = py == eng or (py[0] == 'raise' and eng[0] == 'raise')
-        return dict(same=same, py=py, eng=eng, py_val=py_val, e_al=e_al, e_ph=e_ph, U=U, tp=tp, te=te, line=p.end[2] if len(p.end) > 2 else self.dec.lineno,
-                    conds=[(X.show(c).replace('$w', 'word')[:60], pol) for c, pol, _ in p.conds])
+        last: Optional[dict] = None
+        for p, restr in taken:
+            py_val: Any = None
+            line = p.end[2] if len(p.end) > 2 else self.dec.lineno
+            if p.end[0] == 'return' and p.end[1] is not None:
+                try:
+                    py_val = tp.ev(p.end[1])
+                    py = ('Call', tp.key(py_val.alleles), tp.key(py_val.phased)) if isinstance(py_val, X.CallValue) else ('value', tp.key(py_val))
+                except X.PathRaises as ex:
+                    py = ('raise', str(ex))
+            elif p.end[0] == 'raise':
+                py = ('raise', p.end[1])
+            else:
+                py = ('value', ('none',))
+            fa = self.failing_assert(tp, p, restr, {}) if py[0] != 'raise' else None
+            if fa is not None:
+                py, restr = ('raise', f'AssertionError: assert {X.show(fa[0]).replace("$w", "word")[:70]}'), fa[1]
+            same = py == eng or (py[0] == 'raise' and eng[0] == 'raise')
+            if restr and not same and py[0] != 'raise':
+                raise AnalysisError(f'{F}::_tcall._convert_from_encoding: for ploidy {ploidy}, phased {phased} a path is taken only for some allele-field values '
+                                    f'({self.restr_text(restr)}) and its result term differs from the engine\'s (undecided on that subset)')
+            last = dict(same=same, py=py, eng=eng, py_val=py_val, e_al=e_al, e_ph=e_ph, U=U, tp=tp, te=te, line=line, restr=restr,
+                        conds=[(X.show(c).replace('$w', 'word')[:60], pol) for c, pol, _ in p.conds])
+            if not same:
+                return last
+        return last  # type: ignore[return-value]
 
     # ---- encode ----------------------------------------------------------------------------------------
-    def encode_case(self, ploidy: int, phased: bool, assume: Dict[tuple, int]) -> dict:
+    def encode_case(self, ploidy: int, phased: bool, assume: Dict[tuple, int], by_range: bool = False) -> dict:
         A = [X.Poly.atom(('sym', f'A{i}')) for i in range(ploidy)]
-        nonneg = set()
+        nonneg = {a_.key() for a_ in A}        # allele indices are non-negative
         if ploidy == 2 and not phased:
             nonneg.add((A[1] - A[0]).key())   # Call.__init__ sorts the alleles of an unphased diploid call (R3)
         # engine: CallN(alleles, phased) = Call0 / Call1 / Call2
@@ -607,36 +791,57 @@ class Abstract:
         paths, pt = self._paths.get('enc') or self._paths.setdefault('enc', self.paths('enc'))
         value = W.param_names(self.enc)[2]
         tp = X.TermEval('py', {f'{value}.ploidy': ploidy, f'{value}.phased': phased, f'{value}.alleles': list(A)}, assume=assume, nonneg=nonneg, ctor=CALL_CTORS)
-        taken = []
-        for p in paths:
-            ok = True
-            for c, pol, _ in p.conds:
-                if tp.truth(tp.ev(c), c) != pol:
-                    ok = False
-                    break
-            if ok:
-                taken.append(p)
-        if len(taken) != 1:
+        M, K = _engine_domain(sc)
+        sym_ranges = {f'A{i}': ((0, M) if ploidy == 1 else (0, K)) for i in range(ploidy)}
+        taken = self.feasible(tp, paths, sym_ranges, by_range)
+        if not taken or (len(taken) != 1 and not all(r for _, r in taken)):
             raise AnalysisError(f'{F}::_tcall._convert_to_encoding: {len(taken)} paths are feasible for ploidy {ploidy}, phased {phased}')
-        p = taken[0]
-        res = dict(eng=eng, tp=tp, te=te, line=self.enc.lineno, written=None, problem=None)
-        if p.end[0] == 'raise':
-            res['problem'] = f'raises {p.end[1]}'
-            return res
-        if len(p.writes) != 1 or p.writes[0][0] != 'write_int32':
-            res['problem'] = f'performs the stream operations {[w_[0] for w_ in p.writes]} (expected one write_int32)'
-            return res
-        res['line'] = p.writes[0][2]
-        try:
-            v = tp.to_bv(tp.ev(p.writes[0][1]))
-        except X.PathRaises as ex:
-            res['problem'] = f'raises {ex}'
-            return res
-        res['written'] = v
-        if any(v.bit(i) != v.bit(31) for i in range(31, max(len(v.bits), 32) + 1)):
-            res['problem'] = 'int32-range'
-        elif any(v.bit(i) != eng.bit(i) for i in range(32)):
-            res['problem'] = 'bits'
+        res: dict = {}
+        for p, restr in taken:
+            res = dict(eng=eng, tp=tp, te=te, line=self.enc.lineno, written=None, problem=None, restr=restr)
+            if p.end[0] == 'raise':
+                res['problem'] = f'raises {p.end[1]}'
+                res['line'] = p.end[2] if len(p.end) > 2 else self.enc.lineno
+            else:
+                fa = self.failing_assert(tp, p, restr, sym_ranges)
+                if fa is not None:
+                    res['problem'] = f'raises AssertionError (assert {X.show(fa[0])[:70]})'
+                    res['restr'] = restr = fa[1]
+                elif len(p.writes) != 1 or p.writes[0][0] != 'write_int32':
+                    res['problem'] = f'performs the stream operations {[w_[0] for w_ in p.writes]} (expected one write_int32)'
+                else:
+                    res['line'] = p.writes[0][2]
+                    try:
+                        v = tp.to_bv(tp.ev(p.writes[0][1]))
+                        res['written'] = v
+                        if any(v.bit(i) != v.bit(31) for i in range(31, max(len(v.bits), 32) + 1)):
+                            res['problem'] = 'int32-range'
+                        elif any(v.bit(i) != eng.bit(i) for i in range(32)):
+                            res['problem'] = 'bits'
+                    except X.PathRaises as ex:
+                        res['problem'] = f'raises {ex}'
+            if res['problem'] and restr:
+                if not res['problem'].startswith('raises'):
+                    raise AnalysisError(f'{F}::_tcall._convert_to_encoding: for ploidy {ploidy}, phased {phased} a path is taken only for some allele values '
+                                        f'({self.restr_text(restr)}) and what it writes differs from the engine\'s word (undecided on that subset)')
+                # the rejected set must contain a call the engine represents: its smallest corner has the smallest representation
+                lows = [restr.get(('sym', f'A{i}'), ([(0, 0)], None))[0][0][0] for i in range(ploidy)]
+                for key_, (ivs_, _) in restr.items():
+                    if key_[0] == 'bv' and key_[2].strip("'") in sym_ranges:
+                        # a bit field of allele A_i: the allele values in scope must reach the rejected field values
+                        nm = key_[2].strip("'")
+                        if ploidy == 2:
+                            raise AnalysisError(f'{F}::_tcall._convert_to_encoding: a test on bits of {nm} is decided only for some diploid calls (undecided)')
+                        lows[int(nm[1:])] = ivs_[0][0]
+                if ploidy == 2:
+                    j, k = lows
+                    rep = (j + k) * (j + k + 1) // 2 + j if phased else max(j, k) * (max(j, k) + 1) // 2 + min(j, k)
+                    if rep > M:
+                        res['problem'] = None
+                        continue
+                res['witness'] = lows
+            if res['problem']:
+                return res
         return res
 
     # ---- witnesses (printing only) ------------------------------------------------------------------
@@ -671,7 +876,7 @@ def _r7_decode(ctx: Ctx, m: pf.Module, ab: Abstract, sc: ScalaCall):
     for ploidy in (0, 1, 2):
         for phased in (False, True):
             cons = f'{F}::_tcall._convert_from_encoding::decodes engine words (ploidy {ploidy}, {"phased" if phased else "unphased"})'
-            leaves = ab.split(lambda a: ab.decode_case(ploidy, phased, a), {})
+            leaves = ab.split(lambda a, br=False: ab.decode_case(ploidy, phased, a, br), {})
             n_leaves += len(leaves)
             bad = next(((a, r) for a, r in leaves if not r['same']), None)
             msg = ''
@@ -697,7 +902,8 @@ def _r7_decode(ctx: Ctx, m: pf.Module, ab: Abstract, sc: ScalaCall):
                                        f'the engine\'s is {by.substitute(asg)}.')
                             break
                 path = ' and '.join(('' if pol else 'not ') + c for c, pol in r['conds']) or 'always'
-                msg = (f'for words with ploidy field {ploidy}, phased bit {int(phased)} and allele field R{_case_split_text(assume)}: on the path [{path}] Python\'s decoder yields {py_txt}, '
+                sub = (f' - for the words whose tested bit field is in ' + ' or '.join(f'[{lo}, {hi}]' for ivs_, _ in r['restr'].values() for lo, hi in ivs_) + ' -') if r.get('restr') else ''
+                msg = (f'for words with ploidy field {ploidy}, phased bit {int(phased)} and allele field R{_case_split_text(assume)}: on the path [{path}]{sub} Python\'s decoder yields {py_txt}, '
                        f'the engine\'s accessors (Call.ploidy / isPhased / alleleRepr / allelePair) read {eng_txt} - different terms, i.e. different calls for some R '
                        f'(…x[i] denotes sign extension with bit i).{wit}')
             ctx.check(bad is None, 'R7', cons, msg, m.path, line, detail={'sub_cases': len(leaves), 'decided': 'equality of terms over the bit-field domain, all 2^29 allele-field values'})
@@ -711,7 +917,7 @@ def _r8_encode(ctx: Ctx, m: pf.Module, ab: Abstract, sc: ScalaCall):
     for ploidy in (0, 1, 2):
         for phased in (False, True):
             cons = f'{F}::_tcall._convert_to_encoding::packs like the engine (ploidy {ploidy}, {"phased" if phased else "unphased"})'
-            leaves = ab.split(lambda a: ab.encode_case(ploidy, phased, a), {})
+            leaves = ab.split(lambda a, br=False: ab.encode_case(ploidy, phased, a, br), {})
             n_leaves += len(leaves)
             bad = next(((a, r) for a, r in leaves if r['problem']), None)
             msg = ''
@@ -737,7 +943,8 @@ def _r8_encode(ctx: Ctx, m: pf.Module, ab: Abstract, sc: ScalaCall):
                             diff.append(f'{k} field {X.show_bv(pv)} instead of {X.show_bv(ev_)}')
                     msg = (f'{head}; Python writes {X.show_bv(v)} - ' + ', '.join(diff) + ': the engine (and Python\'s own decoder) read a different call from the word Python sends')
                 else:
-                    msg = f'{head}; Python {r["problem"]}'
+                    sub = (f' for the calls with {ab.restr_text(r["restr"])} (e.g. alleles {r.get("witness")}), which the engine represents' if r.get('restr') else '')
+                    msg = f'{head}; Python {r["problem"]}{sub}'
             ctx.check(bad is None, 'R8', cons, msg, m.path, line, detail={'sub_cases': len(leaves), 'decided': 'equality of the 32 bits over the bit-field domain, symbolic alleles'})
     ctx.unit('encode_sub_cases', n_leaves)
 
@@ -873,12 +1080,16 @@ def _r1_python(ctx: Ctx, m: pf.Module, pw: PyWriter, pr: PyReader, cmp):
     # the reader sources its ploidy-1 allele and the pair from the repr field of the word
     a1, pre1 = pr.alleles.get(1, (None, []))
     ctx.need(a1 is not None and 0 in pr.alleles and 2 in pr.alleles, '_tcall._convert_from_encoding: ploidy dispatch lacks one of 0/1/2')
-    ctx.check(pf.nsrc(pr.alleles[0][0]) == '[]', 'R1', f'{F}::_tcall._convert_from_encoding::ploidy 0', f'ploidy 0 decodes to `{pf.nsrc(pr.alleles[0][0])}`, not []', fpath, pr.fn.lineno)
-    ctx.check(pf.nsrc(a1) == f'[allele_repr({word})]', 'R1', f'{F}::_tcall._convert_from_encoding::ploidy 1',
-              f'haploid allele decoded as `{pf.nsrc(a1)}`, expected [allele_repr({word})]', fpath, a1.lineno)
+    # what each ploidy decodes to, with single-definition locals substituted; a form that is not the tabulated one is not a violation of anything:
+    # the shape-dependent rules are then not armed and the decoder is decided by R7 alone
+    dec = {n: pf.nsrc(pf.expand_locals(pr.fn, pr.alleles[n][0])) for n in (0, 1)}
+    ctx.need(dec[0] == '[]', f'_tcall._convert_from_encoding: ploidy 0 decodes to `{dec[0]}` (not the tabulated form [])')
+    ctx.ok('R1', f'{F}::_tcall._convert_from_encoding::ploidy 0', {'decodes_to': dec[0]})
+    ctx.need(dec[1] == f'[allele_repr({word})]', f'_tcall._convert_from_encoding: haploid allele decoded as `{dec[1]}` (not the tabulated form [allele_repr({word})])')
+    ctx.ok('R1', f'{F}::_tcall._convert_from_encoding::ploidy 1', {'decodes_to': dec[1]})
     src1 = pw.fields['repr1'][1]
-    ctx.check(src1 == ('index', ('name', f'{pw.value}.alleles'), ('int', 0)), 'R1', f'{F}::_tcall._convert_to_encoding::ploidy 1 source',
-              f'haploid representation is `{X.show(src1)}`, expected {pw.value}.alleles[0]', fpath, pw.fields['repr1'][2].lineno)
+    ctx.need(src1 == ('index', ('name', f'{pw.value}.alleles'), ('int', 0)), f'_tcall._convert_to_encoding: haploid representation is `{X.show(src1)}` (not the tabulated form {pw.value}.alleles[0])')
+    ctx.ok('R1', f'{F}::_tcall._convert_to_encoding::ploidy 1 source', {'source': X.show(src1)})
 
 
 def _r1_scala(ctx: Ctx, sc: ScalaCall, cmp):
@@ -1025,17 +1236,23 @@ def _r3(ctx: Ctx, m: pf.Module, pw: PyWriter, pr: PyReader, sc: ScalaCall):
     # Python side sorts unphased diploid alleles in Call.__init__ (the engine does it in diploidGtIndexWithSwap)
     cm = pf.load(CALLPY)
     init = cm.func('Call.__init__')
-    swap = False
-    for n in ast.walk(init):
-        if isinstance(n, ast.If) and isinstance(n.test, ast.Compare) and len(n.test.ops) == 1 and len(n.body) == 1 and isinstance(n.body[0], ast.Assign):
-            l, r = pf.nsrc(n.test.left), pf.nsrc(n.test.comparators[0])
-            asn = n.body[0]
-            if isinstance(asn.targets[0], ast.Tuple) and isinstance(asn.value, ast.Tuple) and len(asn.targets[0].elts) == 2:
-                tg = [pf.nsrc(x) for x in asn.targets[0].elts]
-                vl = [pf.nsrc(x) for x in asn.value.elts]
-                if tg == list(reversed(vl)) and set(tg) == {l, r}:
-                    # `if hi < lo: lo, hi = hi, lo`  sorts ascending when the test is  second < first / first > second
-                    swap = (isinstance(n.test.ops[0], ast.Lt) and (l, r) == (tg[1], tg[0])) or (isinstance(n.test.ops[0], ast.Gt) and (l, r) == (tg[0], tg[1]))
+    # what Call.__init__ stores for an unphased pair, from the abstract execution of the constructor (engines/c34dom.py): [min, max] on every accepting path
+    ips = W.param_names(init)
+    ctx.need(len(ips) >= 3, f'{CALLPY}::Call.__init__ parameters are {ips}')
+    M_, K_ = _engine_domain(sc)
+    acc_ = DOM.Acceptance(cm, cm.cls('Call'), init, f'{CALLPY}::Call.__init__', _module_consts(cm, cm.cls('Call')))
+    accepted_, _rej = acc_.run(((0, K_), (0, K_)), {ips[1]: ('alleles',), ips[2]: ('bool', False)})
+    a_attr = W.value_class('Call').attr_for_prop('alleles') or W.value_class('Call').attr_for_param('alleles')
+    pair_ = [('allele', 0), ('allele', 1)]
+    asc = (('min', pair_), ('max', pair_))
+    asc2 = (('min', pair_[::-1]), ('max', pair_[::-1]))
+    swap = bool(accepted_)
+    for st_ in accepted_:
+        stored = st_.env.get(f'self.{a_attr}')
+        ctx.need(stored is not None and (stored[0] == 'alleles' or (stored[0] == 'list' and len(stored[1]) == 2 and all(x[0] in ('allele', 'min', 'max') for x in stored[1]))),
+                 f'{CALLPY}::Call.__init__: what is stored for an unphased pair (`{stored}`) is not recognised')
+        if stored[0] == 'alleles' or tuple(stored[1]) not in (asc, asc2, (asc[0], asc2[1]), (asc2[0], asc[1])):
+            swap = False
     gt_fn = pw.nested[idx_name]
     has_assert = any(isinstance(s, ast.Assert) for s in gt_fn.body)
     ctx.check(swap and sc_swap, 'R3', f'{CALLPY}::Call.__init__::unphased alleles sorted',
@@ -1092,12 +1309,14 @@ def _r3(ctx: Ctx, m: pf.Module, pw: PyWriter, pr: PyReader, sc: ScalaCall):
     ctx.need(len(pre2) == 1 and isinstance(pre2[0], ast.Assign) and isinstance(pre2[0].targets[0], ast.Name) and pf.nsrc(pre2[0].value) == f'call_allele_pair({pr.word})',
              '_tcall._convert_from_encoding: diploid branch does not take p = call_allele_pair(<word>)')
     pv = pre2[0].targets[0].id
+    ctx.need(pf.nsrc(a2) in (f'[ap_j({pv}), ap_k({pv})]', f'[ap_k({pv}), ap_j({pv})]'), f'_tcall._convert_from_encoding: diploid alleles decoded as `{pf.nsrc(a2)}` (not a tabulated form)')
     ctx.check(pf.nsrc(a2) == f'[ap_j({pv}), ap_k({pv})]', 'R3', f'{F}::_tcall._convert_from_encoding::diploid allele order',
               f'diploid alleles decoded as `{pf.nsrc(a2)}`, the writer packs [j, k] = alleles: expected [ap_j({pv}), ap_k({pv})]', m.path, a2.lineno)
     # unphased branch of both readers is the plain pair lookup
     uret = [r for r in rets if r is not pret[0]]
-    ctx.check(pf.nsrc(uret[0].value) in ('gt_allele_pair(rep)', f'gt_allele_pair(allele_repr({W.param_names(cap)[0]}))'), 'R3',
-              f'{F}::_tcall._convert_from_encoding::unphased pair decode', f'unphased pair decoded as `{pf.nsrc(uret[0].value)}`', m.path, uret[0].lineno)
+    ctx.need(pf.nsrc(pf.expand_locals(cap, uret[0].value)) in ('gt_allele_pair(rep)', f'gt_allele_pair(allele_repr({W.param_names(cap)[0]}))'),
+             f'call_allele_pair: unphased pair decoded as `{pf.nsrc(uret[0].value)}` (not the tabulated form)')
+    ctx.ok('R3', f'{F}::_tcall._convert_from_encoding::unphased pair decode', {'decodes_to': pf.nsrc(uret[0].value)})
 
 
 def _tri(j: int, k: int) -> int:
@@ -1215,6 +1434,337 @@ def _r4(ctx: Ctx, m: pf.Module, pw: Optional[PyWriter], pr: Optional[PyReader], 
     ctx.check(bad is None, 'R4', f'{F}::allele_pair_sqrt',
               (f'gt index {bad[0]} is inverted to (j,k)={bad[1]} by Python allele_pair_sqrt and {bad[2]} by the engine\'s allelePairSqrt; the pair with k(k+1)/2+j = {bad[0]} is expected') if bad else '',
               m.path, ps.lineno, detail={'indices': len(idxs)})
+
+
+# --------------------------------------------------------------------------------------
+# R9 purity: the packed word is a function of the call, the decoded call a function of the word
+# --------------------------------------------------------------------------------------
+
+TO_ENC, FROM_ENC = '_convert_to_encoding', '_convert_from_encoding'
+
+_PURITY_CONTROL = """
+_pairs = {}
+class HailType(object):
+    pass
+class _tprobe(HailType):
+    def _convert_from_encoding(self, byte_reader, _should_freeze=False):
+        w = byte_reader.read_int32()
+        w = w if w >= 0 else w + 2**32
+        phased = (w & 1) == 1
+        rep = w >> 3
+        p = _pairs.get(rep)
+        if p is None:
+            p = (rep, rep + 1) if phased else (rep, rep)
+            _pairs[rep] = p
+        return p
+"""
+
+
+def _keyed_memos(m: pf.Module, cname: str) -> Dict[str, Tuple[str, str, int, Any]]:
+    """Every keyed store (`S[k] = v` / `S.setdefault(k, v)` read back by `S[k]` / `S.get(k)` / `k in S`) that outlives a call of the two converters of
+    class cname or of a same-module helper they reach: state location text -> (verdict 'ok' | 'violation', message, line, detail).
+    The dependences of key and value on the inputs of the conversion are computed by engines/c34deps.py (bits of the word / access paths of the value)."""
+    cls = m.cls(cname)
+    module_classes = {c.name for c in m.tree.body if isinstance(c, ast.ClassDef)}
+    module_globals: set = set()
+    for st in m.tree.body:
+        for t in (st.targets if isinstance(st, ast.Assign) else [st.target] if isinstance(st, (ast.AnnAssign, ast.AugAssign)) else []):
+            if isinstance(t, ast.Name):
+                module_globals.add(t.id)
+    top_funcs = {f.name: f for f in m.tree.body if isinstance(f, ast.FunctionDef)}
+    ms = W.methods(cls)
+    units: Dict[int, Any] = {}
+    work: List[Tuple[Optional[str], ast.FunctionDef, int]] = [(cname, ms[n], 0) for n in (TO_ENC, FROM_ENC) if n in ms]
+    while work:
+        cn, fn, d = work.pop()
+        if id(fn) in units:
+            continue
+        fs = W._FnState(m, cn, fn, module_classes, module_globals)
+        units[id(fn)] = fs
+        if d >= 3:
+            continue
+        for call in (n for n in ast.walk(fn) if isinstance(n, ast.Call)):
+            f = call.func
+            if isinstance(f, ast.Attribute) and isinstance(f.value, ast.Name) and cn and (f.value.id == fs.selfname or f.value.id == cname) and f.attr in ms \
+                    and not f.attr.startswith('_convert_'):
+                work.append((cname, ms[f.attr], d + 1))
+            elif isinstance(f, ast.Name) and f.id in top_funcs and f.id not in fs.locals:
+                work.append((None, top_funcs[f.id], d + 1))
+    writes: Dict[tuple, List[dict]] = {}
+    reads: Dict[tuple, List[dict]] = {}
+    norm = lambda fs, loc: loc if loc[0] != 'inst' else ('inst', fs.cname, loc[1])
+    for fs in units.values():
+        for w in fs.writes:
+            writes.setdefault(norm(fs, w['loc']), []).append(w)
+    for fs in units.values():
+        for r in fs.reads:
+            if norm(fs, r['loc']) in writes:
+                reads.setdefault(norm(fs, r['loc']), []).append(r)
+    out: Dict[str, Tuple[str, str, int, Any]] = {}
+    for k, ws in writes.items():
+        loc = ws[0]['loc']
+        lt = W._loc_text(loc)
+        vreads = [r for r in reads.get(k, []) if r['form'] != 'len']
+        stores = [w for w in ws if w['form'] in ('setitem', 'call:setdefault') and w['value'] is not None and w['key'] is not None]
+        if not vreads or not stores:
+            continue
+        if not all(w['form'] in ('setitem', 'call:setdefault', 'delitem') or (w['form'].startswith('call:') and w['form'][5:] in W.EVICTORS) or
+                   (w['form'] == 'attr-assign' and isinstance(w['value'], (ast.Dict, ast.Call, ast.Constant))) for w in ws):
+            continue
+        if not all(r['form'] in ('get', 'getitem', 'contains') or (r['form'] == 'load' and isinstance(r['fs'].par.get(r['node']), ast.Compare)) for r in vreads):
+            continue
+        keyed_reads = [r for r in vreads if r['form'] in ('get', 'getitem', 'contains')]
+        verdict: Optional[Tuple[str, str, int, Any]] = None
+        for w in stores:
+            fs = w['fs']
+            ps = W.param_names(fs.fn)
+            conv = fs.cname == cname and fs.fn.name in (TO_ENC, FROM_ENC)
+            stream = ps[1] if conv and len(ps) > 1 else None
+            roots = ([ps[2]] if conv and fs.fn.name == TO_ENC and len(ps) > 2 else []) if conv else [p_ for p_ in ps if p_ != fs.selfname]
+            dp = DP.Deps(m, fs.fn, cls if fs.cname else None, stream, roots, fs.selfname, lambda x, top, fs=fs, loc=loc: fs.loc_of(x) == loc)
+            vmask = dp.allof(dp.dep(w['value'], dp.scope_of(w['value'])))
+            keys = [(w['key'], 'the key it is stored under')] + [(r['key'], 'the key it is looked up with') for r in keyed_reads if r['fs'] is fs]
+            if any(r['fs'] is not fs for r in keyed_reads):
+                raise AnalysisError(f'{F}::{fs.qual}: the memo {lt} is written in one function and looked up in another (unrecognised shape)')
+            for kexpr, what in keys:
+                kmask = dp.allof(dp.dep(kexpr, dp.scope_of(kexpr)))
+                miss = dp.missing(vmask, kmask)
+                if miss:
+                    bits = sorted(int(a.split()[-1]) for a in miss if a.startswith('word bit '))
+                    other = [a for a in miss if not a.startswith('word bit ')]
+                    names = {0: 'the phased bit', 1: 'the ploidy field', 2: 'the ploidy field'}
+                    txt = []
+                    if bits:
+                        fld = sorted({names.get(b, 'the allele representation') for b in bits})
+                        txt.append(f'bit(s) {bits} of the word ({", ".join(fld)})')
+                    txt += other
+                    hist = ('decode two words that agree on the key but differ in ' + txt[0] + ': the second comes back with the value remembered for the first'
+                            if bits else f'convert two values that agree on the key but differ in {other}: the second is converted like the first')
+                    verdict = ('violation', f'{fs.qual} remembers in {lt} - which outlives the call - under `{pf.nsrc(kexpr)}` ({what}; depends on '
+                                            f'{_dep_text(dp, kmask)}) the value `{pf.nsrc(w["value"])[:60]}`, which also depends on {" and ".join(txt)}: the result of a conversion '
+                                            f'depends on what was converted before. History: {hist}', getattr(w['node'], 'lineno', 0), dict(missing=miss))
+                    break
+            if verdict:
+                break
+        if verdict is None:
+            verdict = ('ok', f'memo {lt}: the key determines every input (bit of the word / component of the call) the remembered value depends on', getattr(ws[0]['node'], 'lineno', 0), None)
+        out[lt] = verdict
+    return out
+
+
+def _dep_text(dp: 'DP.Deps', mask: int) -> str:
+    names = dp.names(mask)
+    bits = sorted(int(a.split()[-1]) for a in names if a.startswith('word bit '))
+    other = [a for a in names if not a.startswith('word bit ')]
+    parts = []
+    if bits:
+        runs, start, prev = [], bits[0], bits[0]
+        for b in bits[1:] + [None]:
+            if b is None or b != prev + 1:
+                runs.append(f'{start}' if start == prev else f'{start}..{prev}')
+                start = b
+            prev = b if b is not None else prev
+        parts.append('word bits ' + ','.join(runs))
+    parts += other
+    return ', '.join(parts) if parts else 'no input'
+
+
+def _r9_purity(ctx: Ctx, m: pf.Module) -> Optional[str]:
+    """no converter result depends on state that outlives the call - unless it is a memo whose key determines every input of the remembered value.
+    Returns a message when some state is used in a shape that is not recognised (the caller declines after the other rules have reported)."""
+    is_codec = lambda n: n in (TO_ENC, FROM_ENC)
+    cls = m.cls('_tcall')
+    findings, n_methods = W.codec_state(m, {'_tcall': cls}, is_codec)
+    try:
+        mine = _keyed_memos(m, '_tcall')
+        refine_err = None
+    except AnalysisError as e:
+        mine, refine_err = {}, str(e)
+    undecided: List[str] = []
+    flagged = set()
+    for f in findings:
+        lt = f.construct.rsplit('::state ', 1)[1] if '::state ' in f.construct else None
+        if lt is not None and lt in mine:
+            kind, msg, line, detail = mine[lt]
+            if kind == 'violation':
+                ctx.bad('R9', f.construct, msg, m.path, line, detail)
+                flagged.add(f.construct.split('::')[1])
+            else:
+                ctx.ok('R9', f.construct, msg)
+            continue
+        if f.kind == 'violation' and refine_err is not None and 'memoises in' in f.message:
+            undecided.append(f'{f.construct}: {refine_err}')
+        elif f.kind == 'violation':
+            ctx.bad('R9', f.construct, f.message, m.path, f.line, f.detail)
+            flagged.add(f.construct.split('::')[1])
+        elif f.kind == 'ok':
+            ctx.ok('R9', f.construct, f.message)
+        else:
+            undecided.append(f.message)
+    for nm in (TO_ENC, FROM_ENC):
+        ctx.need(nm in W.methods(cls), f'anchor vanished: _tcall.{nm}')
+        if f'_tcall.{nm}' not in flagged:
+            ctx.ok('R9', f'{F}::_tcall.{nm}::pure', 'no state that outlives the call flows into the result')
+    # positive control: a module-level memo of decoded pairs keyed by the allele representation alone, value depending on the phased bit
+    cm = pf.Module('<control>', '<control>', _PURITY_CONTROL, ast.parse(_PURITY_CONTROL))
+    ctl = _keyed_memos(cm, '_tprobe')
+    ctx.need(any(v[0] == 'violation' and 'phased bit' in v[1] for v in ctl.values()), 'internal: the memo-key analysis does not flag its positive control')
+    ctx.ok('R9', 'positive control: module-level memo keyed by word >> 3, value depends on word & 1', 'flagged', nontrivial=False)
+    return undecided[0] if undecided else None
+
+
+# --------------------------------------------------------------------------------------
+# R10 the front end can represent every call the engine can
+# --------------------------------------------------------------------------------------
+
+
+def _engine_domain(sc: ScalaCall) -> Tuple[int, int]:
+    """(largest allele representation, largest allele index of any diploid call): the engine rejects ar with (ar >>> n) != 0, and a diploid call
+    has ar = k(k+1)/2 + j >= k(k+1)/2 (R4)"""
+    M = (1 << sc.max_repr_shift) - 1
+    lo, hi = 0, 1 << 20
+    while lo < hi:       # largest k with k(k+1)/2 <= M
+        mid = (lo + hi + 1) // 2
+        if mid * (mid + 1) // 2 <= M:
+            lo = mid
+        else:
+            hi = mid - 1
+    return M, lo
+
+
+def _module_consts(cm: pf.Module, cls: ast.ClassDef) -> Any:
+    tab: Dict[str, ast.expr] = {}
+    for st in cm.tree.body:
+        if isinstance(st, ast.Assign) and len(st.targets) == 1 and isinstance(st.targets[0], ast.Name):
+            tab[st.targets[0].id] = st.value
+        elif isinstance(st, ast.AnnAssign) and isinstance(st.target, ast.Name) and st.value is not None:
+            tab[st.target.id] = st.value
+    for st in cls.body:
+        if isinstance(st, ast.Assign) and len(st.targets) == 1 and isinstance(st.targets[0], ast.Name):
+            for pre in ('self', 'cls', cls.name, 'type(self)'):
+                tab[f'{pre}.{st.targets[0].id}'] = st.value
+    seen: set = set()
+
+    def lookup(name: str) -> Optional[int]:
+        if name not in tab or name in seen:
+            return None
+        seen.add(name)
+        try:
+            e = tab[name]
+            v = W.const_int(e)
+            if v is None and isinstance(e, (ast.Name, ast.Attribute)) and pf.dotted(e):
+                v = lookup(pf.dotted(e))
+            if v is None and isinstance(e, ast.BinOp):
+                a = W.const_int(e.left) if W.const_int(e.left) is not None else (lookup(pf.dotted(e.left)) if pf.dotted(e.left) else None)
+                b = W.const_int(e.right) if W.const_int(e.right) is not None else (lookup(pf.dotted(e.right)) if pf.dotted(e.right) else None)
+                if a is not None and b is not None:
+                    if isinstance(e.op, ast.Sub):
+                        v = a - b
+                    elif isinstance(e.op, ast.Add):
+                        v = a + b
+                    elif isinstance(e.op, ast.LShift) and 0 <= b <= 64:
+                        v = a << b
+                    elif isinstance(e.op, ast.Pow) and 0 <= b <= 64:
+                        v = a ** b
+            return v
+        finally:
+            seen.discard(name)
+    return lookup
+
+
+def _r10_domain(ctx: Ctx, sc: ScalaCall) -> None:
+    """every (ploidy, phased, alleles) the engine packs (Call0 / Call1 / Call2 -> Call.apply: alleles >= 0, representation < 2^29) is accepted by
+    hail.genetics.Call.__init__ - the constructor every Python call, and every call decoded from a word, goes through"""
+    cm = pf.load(CALLPY)
+    cls = cm.cls('Call')
+    init = cm.func('Call.__init__')
+    ps = W.param_names(init)
+    ctx.need(len(ps) >= 3 and ps[1:3] == ['alleles', 'phased'], f'{CALLPY}::Call.__init__ parameters are {ps}')
+    M, K = _engine_domain(sc)
+    consts = _module_consts(cm, cls)
+    tri = lambda j, k: k * (k + 1) // 2 + j
+    for ploidy in (0, 1, 2):
+        for phased in (False, True):
+            cons = f'{CALLPY}::Call.__init__::accepts every engine call (ploidy {ploidy}, {"phased" if phased else "unphased"})'
+            box = {0: (), 1: ((0, M),), 2: ((0, K), (0, K))}[ploidy]
+            acc = DOM.Acceptance(cm, cls, init, f'{CALLPY}::Call.__init__', consts)
+            accepted, rejections = acc.run(box, {ps[1]: ('alleles',), ps[2]: ('bool', phased)})
+            problems: List[str] = []
+            line = init.lineno
+            for r in rejections:
+                b = r.st.box
+                # does the rejected box contain a call the engine represents?  (its smallest corner has the smallest representation)
+                if ploidy == 2:
+                    j, k = b[0][0], b[1][0]
+                    rep = tri(j, j + k) if phased else tri(min(j, k), max(j, k))
+                    if rep > M:
+                        continue
+                if r.st.taint:
+                    raise AnalysisError(f'{CALLPY}::Call.__init__ (line {r.line}): `{r.text[:60]}` is reached under a test that is not decided ({r.st.taint})')
+                wit = [x[0] for x in b]
+                rng = ', '.join(f'allele {i} in [{lo}, {hi}]' for i, (lo, hi) in enumerate(b)) or 'no alleles'
+                eng = {0: 'Call0', 1: 'Call1', 2: 'Call2'}[ploidy]
+                every = 'every call' if ploidy < 2 else 'every engine-representable call'
+                problems.append(f'Call({wit}, phased={phased}) - and {every} with ploidy {ploidy}, phased={phased}, {rng} - is rejected by Call.__init__ (line {r.line}: {r.text}), '
+                                f'but the engine represents it ({eng} accepts allele indices >= 0 whose representation is <= 2^{sc.max_repr_shift} - 1 = {M}'
+                                + (f'; a haploid call stores the allele index itself in the {sc.max_repr_shift}-bit field, the 16-bit AllelePair limit applies to diploid calls only' if ploidy == 1 else '')
+                                + '): such a call can be neither built / packed by the front end nor unpacked from the word the engine sends')
+                line = r.line
+            ctx.check(not problems, 'R10', cons, ' | '.join(problems[:2]), cm.path, line,
+                      detail={'domain': [list(x) for x in box], 'accepting_paths': len(accepted), 'rejecting_paths_outside_domain': len(rejections) - len(problems)})
+            # ... and keeps them: what the accepting paths store in self._alleles / self._phased is what was given (an unphased pair may be sorted)
+            cons2 = f'{CALLPY}::Call.__init__::stores the alleles and the phased flag it is given (ploidy {ploidy}, {"phased" if phased else "unphased"})'
+            vc = W.value_class('Call')
+            a_attr, p_attr = vc.attr_for_prop('alleles') or vc.attr_for_param('alleles'), vc.attr_for_prop('phased') or vc.attr_for_param('phased')
+            probs2: List[str] = []
+            undecided2 = 0
+            for st in accepted:
+                b = st.box
+                if ploidy == 2:
+                    j, k = b[0][0], b[1][0]
+                    if (tri(j, j + k) if phased else tri(min(j, k), max(j, k))) > M:
+                        continue
+                stored = st.env.get(f'self.{a_attr}') if a_attr else None
+                if stored is not None and stored[0] == 'alleles':
+                    stored = ('list', [('allele', i) for i in range(ploidy)])
+                if stored is None or stored[0] != 'list' or len(stored[1]) != ploidy:
+                    undecided2 += 1
+                    if ploidy == 2 and not phased:
+                        # R8 compares the encoder with the engine under the fact that an unphased pair arrives sorted: that fact must be established here
+                        raise AnalysisError(f'{CALLPY}::Call.__init__: what is stored for an unphased pair (`{stored}`) is not recognised')
+                elif ploidy == 2 and not phased and not st.taint and tuple(stored[1]) in ((('allele', 0), ('allele', 1)), (('allele', 1), ('allele', 0)),
+                                                                                       (('max', [('allele', 0), ('allele', 1)]), ('min', [('allele', 0), ('allele', 1)])),
+                                                                                       (('max', [('allele', 1), ('allele', 0)]), ('min', [('allele', 1), ('allele', 0)]))):
+                    probs2.append('the two alleles of an unphased call are not stored in ascending order: the encoder indexes (j, k) with j > k - not a triangular index (its assert fails) '
+                                  'and not the word the engine packs (diploidGtIndexWithSwap)')
+                else:
+                    pair = [('allele', 0), ('allele', 1)]
+                    for i, v in enumerate(stored[1]):
+                        lo, hi = b[i]
+                        if v == ('allele', i) or (ploidy == 2 and not phased and v in (('min', pair), ('max', pair), ('min', pair[::-1]), ('max', pair[::-1]), ('allele', 1 - i))):
+                            continue
+                        if v[0] in ('min', 'max') and len(v[1]) == 2 and ('allele', i) in v[1] and any(x[0] == 'int' for x in v[1]):
+                            c = next(x[1] for x in v[1] if x[0] == 'int')
+                            if (v[0] == 'min' and hi > c) or (v[0] == 'max' and lo < c):
+                                w = c + 1 if v[0] == 'min' else lo
+                                if st.taint:
+                                    undecided2 += 1
+                                    continue
+                                probs2.append(f'allele {i} is stored as {v[0]}(allele, {c}): e.g. Call({[w if x == i else b[x][0] for x in range(ploidy)]}, phased={phased}) silently becomes a call with allele {c} '
+                                              f'- a different call is packed than the engine packs for the value given, and a decoded word comes back as another call')
+                            continue
+                        if v[0] == 'allele' and v[1] != i and ploidy == 2 and phased and not st.taint:
+                            probs2.append('the two alleles of a phased call are stored in the other order')
+                            continue
+                        if v[0] == 'int' and lo != hi and not st.taint:
+                            probs2.append(f'allele {i} is stored as the constant {v[1]}')
+                            continue
+                        undecided2 += 1
+                sp = st.env.get(f'self.{p_attr}') if p_attr else None
+                if sp is not None and sp[0] == 'bool' and sp[1] != phased and not st.taint:
+                    probs2.append(f'the phased flag is stored as {sp[1]} for a call constructed with phased={phased}')
+            probs2 = list(dict.fromkeys(probs2))
+            ctx.check(not probs2, 'R10', cons2, ' | '.join(probs2[:2]), cm.path, init.lineno, detail={'accepting_paths': len(accepted), 'not_decided': undecided2})
 
 
 def _reader_helper(m: pf.Module, name: str) -> Optional[pf.FuncDef]:
@@ -1365,6 +1915,10 @@ def run(ctx: Ctx) -> None:
                    'equals the term the engine\'s accessors read (exact bit-vector domain with sign extension; PAIR uninterpreted on both sides)', 6)
     ctx.rule('R8', 'encoder as a decision list of terms: per (ploidy, phased) case and symbolic alleles the value written is a signed 32-bit integer whose 32 bits equal the term '
                    'Call0/Call1/Call2 -> Call.apply pack (phased bit, ploidy, representation; gt index in polynomial normal form)', 6)
+    ctx.rule('R9', 'purity: the word packed for a call and the call decoded from a word do not depend on state that outlives the conversion (module globals, class attributes, '
+                   'mutable defaults) - unless it is a memo whose key determines every input of the remembered value (every bit of the word / component of the call it depends on)', 3)
+    ctx.rule('R10', 'domain: hail.genetics.Call.__init__ accepts every call the engine represents - per (ploidy, phased) case every allele interval of the engine '
+                    '(haploid: 0..2^29-1; diploid: indices whose triangular representation is <= 2^29-1) passes every raise / assert of the constructor, and is stored unchanged (an unphased pair sorted)', 12)
     ctx.assume('JVM Int is 32-bit two\'s complement; struct "=i" packs a signed 32-bit integer; Scala infix precedence follows the first operator character')
     ctx.assume('calls in scope: ploidy 0..2, allele representation <= 2^29 - 1 (the engine rejects larger ones): in R8 every arithmetic term over allele indices used as a bit '
                'pattern is a non-negative value below 2^29; allele indices are non-negative, so Python // and JVM / coincide on them')
@@ -1378,6 +1932,7 @@ def run(ctx: Ctx) -> None:
     # shape-independent rules first: a violation they establish is reported even if a shape-dependent rule below declines; if they cannot
     # be set up (e.g. the engine's own packer and accessors disagree about the layout - R1 reports that) the decline is raised at the end
     deferred: Optional[str] = None
+    purity_undecided = _r9_purity(ctx, m)
     try:
         ab = Abstract(ctx, m, sc)
         _r7_decode(ctx, m, ab, sc)
@@ -1389,6 +1944,10 @@ def run(ctx: Ctx) -> None:
         ctx.info(f'{F}::_tcall: the Python converters do not have the tabulated statement shape ({why_not}); their agreement with the engine is decided by R7/R8/R2-sign '
                  f'(evaluation of the whole bodies), the per-field Python instances of R1-R6 are not produced')
         ctx.extra_cov['python_shape'] = {'tabulated': False, 'reason': why_not}
+    try:
+        _r10_domain(ctx, sc)
+    except AnalysisError as e:
+        deferred = deferred or str(e)
     _r1(ctx, m, pw, pr, sc)
     if legacy:
         _r2(ctx, m, pw, pr, sc)
@@ -1397,3 +1956,4 @@ def run(ctx: Ctx) -> None:
     _r5(ctx, m, pw, pr, sc)
     _r6(ctx, m, pw, pr, sc)
     ctx.need(deferred is None, deferred or '')
+    ctx.need(purity_undecided is None, purity_undecided or '')
